@@ -343,6 +343,7 @@ fn read_sst(path: &Path, pristine: &[Entry], blocks: &[(usize, usize)], setsum: 
 fn read_log(bytes: &[u8], pristine: &[Entry]) -> Vec<Value> {
     let mut delivered = 0usize;
     let mut exact = true;
+    let mut after_error_bad = false;
     let r = catch_unwind(AssertUnwindSafe(|| -> Result<(), String> {
         let mut it = LogIterator::from_reader(LogOptions::default(), Cursor::new(bytes)).map_err(|e| format!("{e:?}"))?;
         loop {
@@ -357,12 +358,28 @@ fn read_log(bytes: &[u8], pristine: &[Entry]) -> Vec<Value> {
                     if delivered > pristine.len() + 4 { return Ok(()); }
                 }
                 Ok(None) => return Ok(()),
-                Err(e) => return Err(format!("{e:?}")),
+                Err(e) => {
+                    // a caller that goes on after an error must not be handed anything that is not genuine either:
+                    // a few more calls, judged like the ones before
+                    for _ in 0..3 {
+                        match it.next() {
+                            Ok(Some(kvr)) => {
+                                // skipping the failed batch is fine; what comes must be a genuine later entry
+                                match (delivered..pristine.len()).find(|j| { let p = &pristine[*j]; p.0 == kvr.key && p.1 == kvr.timestamp && p.2.as_deref() == kvr.value }) {
+                                    Some(j) => delivered = j + 1,
+                                    None => { exact = false; after_error_bad = true; delivered += 1; }
+                                }
+                            }
+                            _ => break,
+                        }
+                    }
+                    return Err(format!("{e:?}"));
+                }
             }
         }
     }));
     let (st, _) = status_of(r);
-    vec![json!({"op": "drain", "status": st, "delivered": delivered, "exact": exact, "same": st == "ok" && exact && delivered == pristine.len()})]
+    vec![json!({"op": "drain", "status": st, "delivered": delivered, "exact": exact, "after_error_bad": after_error_bad, "same": st == "ok" && exact && delivered == pristine.len()})]
 }
 
 fn edit_json(e: &mani::Edit) -> Value {
